@@ -386,3 +386,28 @@ func (r *Rec) Encode() sx.X {
 	}
 	return sx.L(xs...)
 }
+
+// EncodeDoc is the document-level call sequence for the docOk automaton (Driver/C14.lean getDocEv).
+func (r *Rec) EncodeDoc() sx.X {
+	metaIdx := map[string]int{"title": 0, "description": 1, "creator": 2, "authors": 3, "keywords": 4, "producer": 5, "created": 6, "modified": 7}
+	var xs []sx.X
+	for _, e := range r.Events {
+		switch {
+		case e.Op == "AddPage":
+			xs = append(xs, sx.A("p"))
+		case e.Op == "AddInternalLink", e.Op == "AddExternalLink", e.Op == "AddFileAnnotation", e.Op == "SetMediaBox", e.Op == "SetTrimBox", e.Op == "SetBleedBox":
+			xs = append(xs, sx.A("c"))
+		case e.Op == "CreateAnchors":
+			xs = append(xs, sx.A("a"))
+		case e.Op == "SetAttachments":
+			xs = append(xs, sx.A("t"))
+		case e.Op == "EmbedFile":
+			xs = append(xs, sx.A("e"))
+		case e.Op == "SetBookmarks":
+			xs = append(xs, sx.A("b"))
+		case strings.HasPrefix(e.Op, "Set:"):
+			xs = append(xs, sx.L(sx.A("m"), sx.I(metaIdx[strings.TrimPrefix(e.Op, "Set:")])))
+		}
+	}
+	return sx.L(xs...)
+}
